@@ -247,8 +247,12 @@ def check(run, M, tier):
             return NONE
         return None
 
+    def _status(o):
+        # a procedure that ends with a bare `return` and one that falls off its end finish the same way
+        return "live" if (o.status == "return" and (o.ret is None or o.ret == NONE)) else o.status
+
     def sig(outs):
-        return sorted((tuple(sorted(repr(c.key()) for c in o.conds)), o.status, tuple(e[1] for e in o.events if e[0] == "setup")) for o in outs)
+        return sorted((tuple(sorted(repr(c.key()) for c in o.conds)), _status(o), tuple(e[1] for e in o.events if e[0] == "setup")) for o in outs)
     code = VN(M, f, call_hook=hook).run(f.body, State())
     ref = VN(M, f, call_hook=hook).run(ast.parse(REF_GET_ALG).body, State())
     run.count("paths", len(code))
@@ -259,7 +263,7 @@ def check(run, M, tier):
         cs, rs = sig(code), sig(ref)
         for item in cs:
             if item not in rs:
-                conds = [o for o in code if (tuple(sorted(repr(c.key()) for c in o.conds)), o.status, tuple(e[1] for e in o.events if e[0] == "setup")) == item][0]
+                conds = [o for o in code if (tuple(sorted(repr(c.key()) for c in o.conds)), _status(o), tuple(e[1] for e in o.events if e[0] == "setup")) == item][0]
                 run.bad("L1", "LinearLeastSquares._get_alg", f.loc(),
                         "under [%s] _get_alg %s (calls %s); the documented selection has no such case (CG rejects proxg, GradientMethod rejects G, unknown solvers are rejected)"
                         % (cond_text(conds.conds), "raises" if item[1] == "raise" else "continues", list(item[2])), stmt="L1:" + cond_text(conds.conds))
